@@ -12,7 +12,6 @@ convention and stack neutrality).
 3. TLC (spec/TraceStack.tla) replays the observed events through the same
    machine semantics from every start alignment and judges every clause.
 """
-import glob
 import json
 import os
 import random
@@ -22,27 +21,20 @@ from .. import core, tlc
 from ..core import Report, MachineryError
 
 GEN = {
-    "C16": {"spec": "AbiGen.tla", "quick": "AbiGen_q.cfg", "thorough": "AbiGen_t.cfg",
-            "strict": "AbiGen_strict.cfg"},
+    "C16": {"spec": "AbiGen.tla", "quick": "AbiGen_q.cfg", "thorough": "AbiGen_t.cfg"},
     "C17": {"spec": "CallGen.tla", "quick": "CallGen_q.cfg", "thorough": "CallGen_t.cfg",
             "strict": "CallGen_strict.cfg"},
 }
 # upper bound on the cases replayed into the library (all of them if fewer)
 SAMPLE = {"quick": 20000, "thorough": 400000}
 JOBS = int(os.environ.get("VERIF_JOBS", "16"))
-FINDINGS = os.path.join(tlc.VERIF, "findings")
 
 
-def load_known() -> Dict[str, dict]:
-    """Open findings: known_findings.json plus findings/<ID>/entry.json
-    (entries proposed by this group, until they are merged)."""
-    known = {k["id"]: k for k in core.load_known() if k.get("status") == "open"}
-    for path in sorted(glob.glob(os.path.join(FINDINGS, "KF-C1[67]-*", "entry.json"))):
-        with open(path) as f:
-            e = json.load(f)
-        if e.get("status") == "open":
-            known.setdefault(e["id"], e)
-    return known
+def load_known(prop: str) -> Dict[str, dict]:
+    """Open findings of known_findings.json that concern this property (a fixed
+    entry suppresses nothing)."""
+    return {k["id"]: k for k in core.load_known()
+            if k.get("status") == "open" and prop in k.get("properties", [k["property"]])}
 
 
 def collect_cases(src: str, dst: str, n: int, rng: random.Random, tag: str):
@@ -96,7 +88,7 @@ def run(prop: str, tier: str, replay: str = None) -> int:
             rep.extra["replayed_cases"] = n
             rep.exhaustive = (n == total)     # the whole enumerated space was replayed
             os.remove(allc)
-            if tier == "thorough":
+            if tier == "thorough" and "strict" in g:
                 strict_demo(rep, prop)
         shards = core.split_file(cases, JOBS, wd, "cases")
         traces = core.run_module_parallel("harness.abi.runner", shards, wd, "abi")
@@ -135,7 +127,7 @@ def run(prop: str, tier: str, replay: str = None) -> int:
 
 
 def strict_demo(rep: Report, prop: str) -> None:
-    """The same model without the exemptions of the known findings must be
+    """The same model without the exemptions of the OPEN findings must be
     refuted by TLC (the findings are re-found at the design level)."""
     res = tlc.run_tlc(GEN[prop]["spec"], GEN[prop]["strict"], workers=JOBS, timeout=900)
     line = res["error"] or "no violation"
@@ -144,7 +136,7 @@ def strict_demo(rep: Report, prop: str) -> None:
 
 
 def judge(rep: Report, prop: str, verdicts: List[dict], case_by_id: Dict[str, dict]) -> None:
-    known = load_known()
+    known = load_known(prop)
     pre = prop + "_"
     drift = 0
     ood = 0
@@ -187,9 +179,3 @@ def judge(rep: Report, prop: str, verdicts: List[dict], case_by_id: Dict[str, di
     if ood:
         rep.notes.append(f"{ood} case(s) OUT-OF-DOMAIN: an emitted instruction is outside the "
                          "instruction table and touches sp/memory; not judged")
-    # findings proposed by this group that are not merged into known_findings.json yet
-    for kid in sorted(rep.known_matched):
-        if not any(k["id"] == kid for k in core.load_known()):
-            rep.notes.append(f"{kid}: {known[kid].get('what', '')} (entry: findings/{kid}/entry.json)")
-            print(f"KNOWN-FINDING-DETAIL: property={prop} {kid} {known[kid].get('what', '')} "
-                  f"(findings/{kid}/entry.json)")
